@@ -69,7 +69,7 @@ def run_case(seed):
         dist[k] = dist.get(k, 0) + 1
 
     pf = gen.gen_plotfile(rng, ndims=2, payload=rng.choice(['ints', 'random', 'special']),
-                          max_blocks=3, nfields=(1, 6))
+                          max_blocks=3, nfields=(1, 6), odd0=0.35)
     keys = c01.reader_keys(pf.fields)
     path = core.scratch_dir(f"c08_{seed}")
     gen.write_plotfile(pf, path)
